@@ -308,3 +308,82 @@ func toYAMLValue(v any) any {
 
 // YAML renders a raw JSON tree as YAML text.
 func YAML(v any) ([]byte, error) { return yaml.Marshal(toYAMLValue(v)) }
+
+// GraphEdit applies one edit which changes the reference graph or the identity of schemas rather than one
+// sub-tree: cycles of definitions which are nothing but a $ref (reached through allOf, a property, a response
+// or a parameter schema), an "id" member on a schema which carries a default / example and an inner $ref,
+// string members emptied.  Returns a description, or "" when the document has no site.
+func GraphEdit(r *lib.Rand, doc map[string]any) string {
+	defs, _ := doc["definitions"].(map[string]any)
+	if defs == nil {
+		defs = map[string]any{}
+		doc["definitions"] = defs
+	}
+	switch r.Intn(4) {
+	case 0:
+		// a cycle of pure $ref definitions of length 1..3 and something which leads into it
+		n := r.Range(1, 3)
+		for i := 0; i < n; i++ {
+			defs[fmt.Sprintf("Cyc%d", i)] = map[string]any{"$ref": fmt.Sprintf("#/definitions/Cyc%d", (i+1)%n)}
+		}
+		entry := map[string]any{"$ref": "#/definitions/Cyc0"}
+		switch r.Intn(4) {
+		case 0:
+			defs["CycUser"] = map[string]any{"allOf": []any{entry, map[string]any{"type": "object", "properties": map[string]any{"p": map[string]any{"type": "string"}}}}}
+		case 1:
+			defs["CycUser"] = map[string]any{"type": "object", "properties": map[string]any{"p": entry}, "default": map[string]any{"p": json.Number("1")}}
+		case 2:
+			defs["CycUser"] = map[string]any{"type": "array", "items": entry, "example": []any{json.Number("1")}}
+		default:
+			defs["CycUser"] = map[string]any{"allOf": []any{map[string]any{"allOf": []any{entry}}}}
+		}
+		return fmt.Sprintf("ref-cycle length %d", n)
+	case 1:
+		// a schema with an id (a new resolution scope), an inner $ref and a default / example
+		names := sortedKeys(defs)
+		target := "IdT"
+		defs[target] = map[string]any{"type": "string"}
+		if len(names) > 0 && r.Bool() {
+			target = names[r.Intn(len(names))]
+		}
+		s := map[string]any{"id": r.Pick("http://localhost:1/x/", "urn:verif:x", "x.json", "#frag", ""), "type": "object",
+			"properties": map[string]any{"a": map[string]any{"$ref": "#/definitions/" + target}}}
+		if r.Bool() {
+			s["default"] = map[string]any{"a": "1"}
+		} else {
+			s["example"] = map[string]any{"a": "1"}
+		}
+		defs["WithId"] = s
+		return fmt.Sprintf("schema-id %q", s["id"])
+	case 2:
+		// empty a string member (host, basePath, names, patterns, formats, references ...)
+		var locs, strs []loc
+		collect(doc, "", &locs)
+		for _, l := range locs {
+			if _, ok := l.get().(string); ok {
+				strs = append(strs, l)
+			}
+		}
+		// the root members which the Swagger schema constrains by a pattern are preferred
+		if r.P(0.5) {
+			k := r.Pick("host", "basePath")
+			doc[k] = r.Pick("", " ", "a/b", "/", "x y")
+			return fmt.Sprintf("root-string %s=%q", k, doc[k])
+		}
+		if len(strs) == 0 {
+			return ""
+		}
+		l := strs[r.Intn(len(strs))]
+		l.set("")
+		return "empty-string " + l.path
+	default:
+		// a definition which is nothing but a $ref to another definition (legal), used as a base of inheritance
+		names := sortedKeys(defs)
+		if len(names) == 0 {
+			return ""
+		}
+		defs["Alias"] = map[string]any{"$ref": "#/definitions/" + names[r.Intn(len(names))]}
+		defs["AliasUser"] = map[string]any{"allOf": []any{map[string]any{"$ref": "#/definitions/Alias"}, map[string]any{"type": "object", "properties": map[string]any{"aliasOwn": map[string]any{"type": "string"}}}}}
+		return "alias-definition"
+	}
+}
